@@ -128,8 +128,7 @@ SIG_C02 = {"masking-wrong-for-role", "rsv2-or-rsv3-set", "length-not-minimally-e
            "header-undecodable", "length-beyond-2^31", "mask-key-not-refreshed", "mask-key-reused", "second-close-frame", "data-frame-after-close-frame",
            "peer-received-corrupt-message"}
 SIG_C15 = {"ping-returned-nil-without-its-own-pong", "pong-matched-against-wrong-ping-set", "pong-does-not-echo-next-ping",
-           "ping-frame-payload-is-not-a-registered-ping", "two-ping-frames-in-flight-with-the-same-payload",
-           "ping-failed-although-its-pong-was-sent"}
+           "ping-frame-payload-is-not-a-registered-ping", "two-ping-frames-in-flight-with-the-same-payload"}
 SIG_C20 = {"library-goroutine-alive-when-close-returned", "close-returned-with-connection-open", "timeoutloop-exited-with-connection-open",
            "closeread-goroutine-exited-with-connection-open"}
 SIG_C10 = {"timeoutloop-received-other-write-context", "write-context-handoff-never-received", "timeoutloop-received-unsent-write-context",
